@@ -649,13 +649,29 @@ make_refused_pairs(size_t N, struct pair *p)
     for (size_t k = 0; k < 3; ++k)
         for (size_t j = 0; j < 3; ++j)
             p[n++] = (struct pair){ SIZE_MAX - k, k + 1 + j, true };
+#if SIZE_MAX > 0xffffffffu
+    /* offsets and lengths at and above 2^32 (and 2^31) whose low 32 bits describe
+     * a part inside the data: refused, unless the arithmetic is done in a
+     * narrower type than size_t */
+    {
+        const size_t W = (size_t)1 << 32, H = (size_t)1 << 31;
+        p[n++] = (struct pair){ W, 1, false };
+        p[n++] = (struct pair){ W + (N - 1), 1, false };
+        p[n++] = (struct pair){ 0, W + 1, false };
+        p[n++] = (struct pair){ 0, W + N, false };
+        p[n++] = (struct pair){ W, W + 1, false };
+        p[n++] = (struct pair){ H, H + 1, false };
+        p[n++] = (struct pair){ 2 * W, 1, false };
+        p[n++] = (struct pair){ W * 65536, 1, false };
+    }
+#endif
     return n;
 }
 
 static void
 scenario_refuse(const struct cfg *c)
 {
-    struct pair pairs[2 * (NMAX + 1) + 9];
+    struct pair pairs[2 * (NMAX + 1) + 9 + 8];
     const int np = make_refused_pairs(c->N, pairs);
     unsigned char image[NMAX];
     for (int which = 0; which < 2; ++which)
@@ -675,8 +691,11 @@ scenario_refuse(const struct cfg *c)
             make_image(image, c->N, 2);
             if (do_reset(&in, 0x00) && do_store(&in, c, image, NULL)) {
                 unsigned char *snap = mc_exact_copy(M.img, M.size);
-                unsigned char *buf = mc_exact(p->len);
-                memset(buf, 0x77, p->len);
+                /* the caller's buffer: exact size, except for the absurd lengths
+                 * (a correct library refuses those before touching it) */
+                const size_t blen = p->len > 4096 ? 64 : p->len;
+                unsigned char *buf = mc_exact(blen);
+                memset(buf, 0x77, blen);
                 PersistentAccess rc;
                 if (run_op(&in, which ? OP_FETCH_PART : OP_STORE_PART, buf, p->off, p->len, 0, &rc)) {
                     if (rc == PERSISTENT_ACCESS_SUCCESS)
